@@ -399,7 +399,13 @@ pub fn relation_row(i: usize, acc: &mut Acc, what: u8) {
             }
             1 => {
                 // containment on huge containers is quadratic (model and implementation): keep to <= 1,000 children
-                let sz = |v: &RVal| match v { RVal::Arr(x) => x.len(), RVal::Obj(x) => x.len(), _ => 1 };
+                fn sz(v: &RVal) -> usize {
+                    match v {
+                        RVal::Arr(x) => x.len().max(x.iter().map(sz).max().unwrap_or(0)),
+                        RVal::Obj(x) => x.len().max(x.values().map(sz).max().unwrap_or(0)),
+                        _ => 1,
+                    }
+                }
                 if sz(&a.val) > 1000 || sz(&b.val) > 1000 {
                     acc.evaluations -= 1;
                     acc.nontrivial -= 1;
